@@ -417,7 +417,20 @@ pub fn check_enum_cases(p: &Program, d: &Dump, lines: &[String], stats: &mut His
         }
         let ty: usize = head[1].parse().map_err(|_| "bad cases line")?;
         let el: u32 = head[2].parse().map_err(|_| "bad cases line")?;
-        let body = parts.next().unwrap_or("");
+        let body_all = parts.next().unwrap_or("");
+        let (body, first) = match body_all.split_once(" | ") {
+            Some((b, f)) => (b, Some(f.trim())),
+            None => (body_all.strip_suffix(" |").unwrap_or(body_all), None),
+        };
+        match first {
+            Some("PANIC") => return Err(format!("{}_case({}) panicked", snake(&p.types[ty].name), el)),
+            Some(f) => {
+                if !body.split_whitespace().any(|c| c == f) {
+                    return Err(format!("{}_case({}) returned {} which is not among {}_cases({}) = [{}]", snake(&p.types[ty].name), el, f, snake(&p.types[ty].name), el, body.trim()));
+                }
+            }
+            None => {}
+        }
         let mut n = 0;
         for c in body.split_whitespace() {
             let (ctor, rest) = c.split_once('(').ok_or("bad case")?;
